@@ -1,2 +1,47 @@
-(* C02 *)
-From Grex Require Import Base.Str.
+(* C02 — with the default settings the generated expression accepts nothing but the test cases.
+
+   "Default settings": no class conversion, no case-insensitive matching, no repetition
+   conversion; the presentation settings (verbose, capturing groups, escaping, anchors,
+   colour) are arbitrary.  cls is arbitrary: no class token occurs. *)
+From Grex Require Import Base.Str Model.Config Model.Cluster Model.Dfa Model.Expr Model.Pipeline.
+From Grex Require Import Proofs.Lang Proofs.Spec Proofs.ClustersSpec Proofs.EngineDen
+  Proofs.QuotientLang Proofs.PropsGlue.
+
+(* the language is exactly the set of test cases (K4: the empty test case next to a non-empty
+   one may be lost; nothing is ever added) *)
+Theorem C02_exact : forall (cls : cp -> cp -> Prop) c db sc ws e,
+  f_digit c = false /\ f_non_digit c = false /\ f_space c = false /\
+  f_non_space c = false /\ f_word c = false /\ f_non_word c = false ->
+  f_ci c = false -> f_rep c = false ->
+  ws <> [] ->
+  oracle_ok db (normalise c db ws) ->
+  Pipeline.final_expr c (grapheme_clusters c db (normalise c db ws)) sc = Some e ->
+  (forall u, (u <> [] \/ K4 (normalise c db ws) = false) -> (L_expr lit_cs cls e u <-> In u ws))
+  /\ (L_expr lit_cs cls e [] -> In [] ws).
+Proof. exact exact_default. Qed.
+
+(* the specification language of the default settings is the set of test cases *)
+Theorem C02_spec_plain : forall (cls : cp -> cp -> Prop) c db ws u,
+  f_digit c = false /\ f_non_digit c = false /\ f_space c = false /\
+  f_non_space c = false /\ f_word c = false /\ f_non_word c = false ->
+  f_ci c = false ->
+  (Spec lit_cs cls c db ws u <-> In u ws).
+Proof. exact Spec_plain. Qed.
+
+(* the minimised automaton is deterministic and has no two states with the same right
+   language (over grapheme labels): it is the minimal deterministic automaton *)
+Theorem C02_minimal_deterministic : forall c db ws t d',
+  f_rep c = false ->
+  ws <> [] ->
+  oracle_ok db (normalise c db ws) ->
+  ~ In [] ws ->
+  trie_of (grapheme_clusters c db (normalise c db ws)) = Some t ->
+  minimize t = Some d' ->
+  deterministic d'
+  /\ (forall i j, i < d_n d' -> j < d_n d' ->
+        (forall w, Lw_from d' i w <-> Lw_from d' j w) -> i = j).
+Proof. exact minimal_deterministic_default. Qed.
+
+Print Assumptions C02_exact.
+Print Assumptions C02_spec_plain.
+Print Assumptions C02_minimal_deterministic.
